@@ -187,7 +187,9 @@ func buildShiftMatchingPredicate(sw swamp.Swamp, beaconType swamp.BeaconType, fi
 		if verifhook.Enabled {
 			verifhook.Point("claim.candidates", "shift", len(keySet))
 		}
-		filterEval = plan.Residual
+		// The candidate set was computed now, the selection runs later (after capMu, under the beacon lock, and
+		// once more under the record guard before the delete): it is only a fast-reject. A candidate has to pass
+		// the whole filter — the indexed leg included — when it is selected, so filterEval stays the full filter.
 	}
 
 	if !hasTimeBounds {
